@@ -189,7 +189,29 @@ def k2_fault_schedules(rep: Report, tier: str) -> None:
             parts.append("failed " + ", ".join(op_label(byidx[i]) for i in plan["fail"] if i in byidx))
         if plan.get("crash_at") is not None:
             parts.append("killed before " + (op_label(byidx[plan["crash_at"]]) if plan["crash_at"] in byidx else f"op {plan['crash_at']}"))
-        key = f"{r['store']} store{' -n ' + str(r['workers']) if r['workers'] else ''}, {r['scenario']}: " + "; ".join(parts)
+        r["schedule_text"] = "; ".join(parts)
+        # canonical identification of the failing history: which records of the two modules the
+        # fault-free run rewrites, and which of those the faulty run left durable
+        def recs(oplist: list, durable_only: bool) -> set:
+            out: set = set()
+            pending: set = set()
+            for o in oplist:
+                lab = op_label(o)
+                if o["op"] == "write" and o.get("event") == "ok" and o.get("result") is not False and " of " in lab and "another" not in lab:
+                    (pending if (r["store"] == "sqlite" and durable_only) else out).add(lab.split(" ", 1)[1])
+                if o["op"] in ("commit", "commit_path") and o.get("event") == "ok":
+                    out |= pending
+                    pending = set()
+            return out
+        expected = recs(ops, False)
+        applied = recs([o for o in r["ops"] if o.get("idx") is not None], True)
+        missing = sorted(expected - applied)
+        present = sorted(expected & applied)
+        tied = [m_ for m_ in ("a", "b") if f"meta of {m_}" in present and f"meta_ex of {m_}" in missing]
+        if tied:
+            key = f"warm run accepts the new meta of module {'/'.join(tied)} together with its stale meta_ex (nothing ties meta_ex to meta)"
+        else:
+            key = "warm run trusts a cache where the interrupted run left [" + ", ".join(present) + "] updated but [" + ", ".join(missing) + "] stale"
         found.setdefault(key, r)
     rep.add_counts(len(results), ok, queries=len(results))
     rep.section("K2 fault schedules replayed end to end", schedules=len(results), warm_equals_cold=ok, configs=[f"{s}/n={w}" for s, w in configs], scenarios=scens)
@@ -199,7 +221,7 @@ def k2_fault_schedules(rep: Report, tier: str) -> None:
         rep.sample({"plan": r0["plan"], "store": r0["store"], "scenario": r0["scenario"], "ops": [op_label(o) for o in opsmap[(r0["store"], r0["workers"], r0["scenario"])]][:12]})
     for key, r in found.items():
         rep.sample({"class": key, "plan": r["plan"], "warm": r["warm"], "cold": r["cold"]})
-        rep.candidate(key, f"after the faulty run the warm run prints {r['warm']} but a cold run prints {r['cold']}", r["plan"], replay_again(r))
+        rep.candidate(key, f"{r['store']} store, edit {r['scenario']}, schedule: {r['schedule_text']}: the warm run prints {r['warm']} but a cold run prints {r['cold']}", r["plan"], replay_again(r))
 
 
 def replay_again(r: dict):
